@@ -18,7 +18,7 @@ witnesses in `Compio.Cex.C01`); `hazard_only_by_drop_drain` says this is the onl
 Kernel assumption A-K1 is built into the LTS: `kPost` is only accepted for an op the kernel still has in
 flight and while the ring is open.
 -/
-import Compio.Lemmas.KeyLifeMain
+import Compio.Lemmas.KeyLifeArm
 
 namespace Compio.Props.C01
 
@@ -132,6 +132,38 @@ theorem driver_drop_releases_driver_side (h : run Cfg.gen (init d cap) evs = som
     o.inFl = false ∧ (∀ fd, s.reg fd = FdQ.empty) := by
   obtain ⟨_, hreg, hfl⟩ := (reach_inv h hz).dead_ok hdead hpc
   exact ⟨hfl i o ho, hreg⟩
+
+/-- **polling driver: the key stored in the poller is a key the driver owns.** While the proactor is alive, what
+the poller watches for a descriptor is `event()` of its queues, so the user-data key an event carries (it is
+dereferenced through a `BorrowedKey` in `poll`) is the head of a queue: that operation exists, the queue holds a
+counted reference to it, and it has not been released. -/
+theorem poller_key_is_alive (h : run Cfg.gen (init d cap) evs = some s) (hz : s.hazard = false)
+    (ha : s.alive = true) {fd k : Nat} (hk : (s.armed fd).key = some k) :
+    s.armed fd = (s.reg fd).event ∧
+      ∃ o, s.ops[k]? = some o ∧ o.fd = fd ∧ 0 < o.rc ∧ o.freed = 0 ∧ o.returned = 0 := by
+  have hi := reach_inv h hz
+  have harm := run_arm gen_good evs _ _ (inv_init _ d cap) (arm_init d cap) h hz ha fd
+  refine ⟨harm, ?_⟩
+  rw [harm] at hk
+  -- the key is the head of the write queue, else of the read queue
+  have hmem : ∃ dir, k ∈ (s.reg fd).sel dir := by
+    unfold FdQ.event at hk
+    simp only at hk
+    cases hw : (s.reg fd).wq.head? with
+    | some w =>
+      rw [hw] at hk; simp only [Option.some.injEq] at hk; subst hk
+      exact ⟨.wr, List.mem_of_mem_head? hw⟩
+    | none =>
+      rw [hw] at hk; simp only at hk
+      exact ⟨.rd, List.mem_of_mem_head? hk⟩
+  obtain ⟨dir, hm⟩ := hmem
+  obtain ⟨o, ho, hfd, hdir⟩ := hi.qmem fd dir k hm
+  obtain ⟨ok, hid⟩ := hi.ops k o ho
+  have hq : 0 < qcount s.reg o := by
+    unfold qcount; rw [hfd, hdir, hid]; exact List.count_pos_iff.mpr hm
+  have hrc : 0 < o.rc := by rw [ok.rc_eq]; unfold holders; omega
+  have := ok.rcok.rel1 hrc
+  exact ⟨o, ho, hfd, hrc, by omega, by omega⟩
 
 /-- **the ring is closed before in-flight keys are freed** — over the statement order extracted from
 `impl Drop for iour::Driver`: every `freeInFlight` statement is preceded by a `closeRing`, and the order is
